@@ -408,13 +408,6 @@ impl<'a> ReadAdapter<'a> {
             },
         }
 
-        // Check if we should reset our internal buffer
-        if self.buffer().is_empty() && self.pos > 0 {
-            unsafe {
-                self.buf.set_len(0);
-            }
-        }
-
         Ok(output)
     }
 
